@@ -6,7 +6,7 @@ CONSTANTS
   NApps = 2
   MaxRoutes = 1
   MaxDepth = 1
-  MSETS = "full"
+  MSETS = "mid"
   PSIB = TRUE
   NPOL = 1
   RICHPOL = FALSE
